@@ -1,4 +1,5 @@
 import Heph.Proofs.TransKotlinHistory
+import Heph.Props.C11Groovy
 import Heph.Generated.TransWrites
 /-!
 # C11 — translation is a pure function of the program (Kotlin translator modelled)
